@@ -97,6 +97,8 @@ doc = re.sub(r'<!--MUTANTS:round=(\w+)-->', lambda m: mutants(m.group(1)), doc)
 doc = doc.replace('<!--DEFECTS-REINTRODUCED-->', reintroduced())
 kf = json.load(open(f'{V}/known_findings.json'))['findings']
 doc = doc.replace('<!--ND-->', str(len(set(f['commit'] for f in kf if f['status'] == 'fixed'))))
+vi = json.load(open(f'{V}/selftest/variants/index.json')); bi = json.load(open(f'{V}/selftest/benign/index.json'))
+doc = doc.replace('<!--NVAR-->', str(sum(1 for e in vi if e['status'] == 'ok'))).replace('<!--NBEN-->', str(sum(1 for e in bi if e['status'] == 'ok')))
 doc = doc.replace('<!--NMUT-->', str(sum(1 for k in metas() if re.fullmatch(r'C\d\d[abc]\d?', k))))
 doc = re.sub(r'<!--STATS:round=(\w+)-->', lambda m: stats(m.group(1)), doc)
 open(f'{V}/DESIGN.md', 'w').write(doc)
